@@ -73,6 +73,7 @@ class FunctionResult:
         self.trusted_used: set[str] = set()
         self.gen_time = 0.0
         self.outcomes = {"return": 0, "raise": 0}
+        self.cases = 0
 
 
 def verify_function(w: World, relpath: str, qualname: str, contract: Contract) -> FunctionResult:
@@ -89,10 +90,26 @@ def verify_function(w: World, relpath: str, qualname: str, contract: Contract) -
         mfile = os.path.realpath(getattr(module, "__file__", ""))
         if not mfile.startswith(os.path.realpath(w.repo_root) + os.sep):
             raise RuntimeError(f"module {src.modname} imported from {mfile}, not from {w.repo_root}")
-        ex = Executor(w, module, src.node, qualname, contract, relpath)
-        _run(ex, w, src, contract, res)
-        res.obligations = ex.obligations
-        res.trusted_used = ex.trusted_used
+        cases = contract.cases(w) if callable(contract.cases) else contract.cases
+        if cases:
+            # finite case split over a parameter domain: one symbolic run per case, obligations tagged by case
+            res.cases = len(cases)
+            for ci, case in enumerate(cases):
+                ex = Executor(w, module, src.node, qualname, contract, relpath)
+                ex.closure_globals = _closure_globals(w, module, src)
+                _run(ex, w, src, contract, res, case=case)
+                lab = case.get("label", str(ci))
+                for o in ex.obligations:
+                    o.id = f"{o.id}[{lab}]"
+                    o.note = f"[case {lab}] {o.note}"
+                res.obligations.extend(ex.obligations)
+                res.trusted_used |= ex.trusted_used
+        else:
+            ex = Executor(w, module, src.node, qualname, contract, relpath)
+            ex.closure_globals = _closure_globals(w, module, src)
+            _run(ex, w, src, contract, res)
+            res.obligations = ex.obligations
+            res.trusted_used = ex.trusted_used
     except Unsupported as e:
         ln = getattr(e.node, "lineno", None)
         res.out_of_reach = f"{e}" + (f" at {relpath}:{ln}" if ln else "")
@@ -100,7 +117,7 @@ def verify_function(w: World, relpath: str, qualname: str, contract: Contract) -
     return res
 
 
-def init_state(ex: Executor, contract: Contract, fn_node) -> tuple[State, dict]:
+def init_state(ex: Executor, contract: Contract, fn_node, case=None) -> tuple[State, dict]:
     st = State()
     st.ghost["$alloc"] = z3.Int("alloc0")
     st.assume(z3.Int("alloc0") >= 0)
@@ -110,7 +127,10 @@ def init_state(ex: Executor, contract: Contract, fn_node) -> tuple[State, dict]:
     for nm in names:
         spec = contract.params.get(nm)
         hint = Executor.param_hint(spec) if spec is not None else None
-        v = Val(z3.Const(f"p_{nm}", V), hint)
+        if case is not None and nm in case.get("bind", {}):
+            v = ex.w.const(case["bind"][nm])
+        else:
+            v = Val(z3.Const(f"p_{nm}", V), hint)
         ex.assume_type(st, v)
         ex.assume_allocated(st, v.t)
         st.env[nm] = v
@@ -124,9 +144,16 @@ def init_state(ex: Executor, contract: Contract, fn_node) -> tuple[State, dict]:
     return st, bind
 
 
-def _run(ex: Executor, w: World, src: FunctionSource, contract: Contract, res: FunctionResult):
+def _closure_globals(w, module, src):
+    return {}
+
+
+def _run(ex: Executor, w: World, src: FunctionSource, contract: Contract, res: FunctionResult, case=None):
     fn = src.node
-    st, bind = init_state(ex, contract, fn)
+    st, bind = init_state(ex, contract, fn, case)
+    if case is not None:
+        for k, v in case.get("names", {}).items():
+            bind[k] = w.const(v)
     pre = st.fork()
     for r in contract.requires:
         ctx = SpecCtx(ex, old=pre, cur=pre, names=dict(bind))
